@@ -274,6 +274,117 @@ def responseEchoQuery (resp : Message) (reqQuery : Bytes) : Bytes :=
 def serverFrame (resp : Message) (reqQuery : Bytes) : Bytes :=
   writeMessageStreaming resp.header (responseEchoQuery resp reqQuery) resp.body
 
+/-! ### further frame producers / consumers (coverage-audit pass) -/
+
+/-- `Message::serialized_len`. -/
+def Message.serializedLen (m : Message) : Nat := 48 + m.query.length + m.body.length
+
+/-- `write_view_response` (async TCP server): copies the response header, patches `query_length` to the
+supplied query and `length` to `48 + |query| + header.body_length` (the header's own body length, *not*
+`body.len()`), then three writes. -/
+def writeViewResponse (resp : Message) (query : Bytes) : Bytes :=
+  let h : Header := { resp.header with
+    queryLength := query.length, length := 48 + query.length + resp.header.bodyLength }
+  h.encode ++ (if query.isEmpty then [] else query) ++ (if resp.body.isEmpty then [] else resp.body)
+
+/-- The async TCP server frames a response through `write_view_response` with the echoed query
+(both the write-timeout branch and the plain branch pass `echo`). -/
+def asyncServerFrame (resp : Message) (reqQuery : Bytes) : Bytes :=
+  writeViewResponse resp (responseEchoQuery resp reqQuery)
+
+def UTF8_FORMAT : Nat := 3
+
+/-- `create_error_message(code, msg)`: builder with the error code, the text as body, body format UTF-8. -/
+def wireErrorMessage (code : Nat) (msg : Bytes) : Message :=
+  (Builder.mk 0 false code 0 UTF8_FORMAT [] msg).build
+
+/-- `create_error_response_like(request, code, msg)`: echo id and query, patch `query_length` and `length`. -/
+def createErrorResponseLike (reqId : Nat) (reqQuery : Bytes) (code : Nat) (msg : Bytes) : Message :=
+  let e := wireErrorMessage code msg
+  { header := { e.header with id := reqId, queryLength := reqQuery.length,
+                              length := 48 + reqQuery.length + e.header.bodyLength }
+    query := reqQuery, body := e.body }
+
+/-- `create_error_response_unstamped_view(view, code, msg)`: only the id is set; the query is left to the
+transport boundary. -/
+def createErrorResponseUnstamped (reqId : Nat) (code : Nat) (msg : Bytes) : Message :=
+  let e := wireErrorMessage code msg
+  { e with header := { e.header with id := reqId } }
+
+/-- `response_header_builder`: `QueryFormat::try_from(qf).unwrap_or(RawBinary)` keeps 0 and 1, maps the rest to 0. -/
+def responseQueryFormat (qf : Nat) : Nat := if qf = 1 then 1 else 0
+
+/-- `create_response(request, result, body_format)`; the serialised body is a parameter. -/
+def createResponse (reqId reqQf : Nat) (reqQuery : Bytes) (bodyFormat : Nat) (body : Bytes) : Message :=
+  (Builder.mk reqId false 0 (responseQueryFormat reqQf) bodyFormat reqQuery body).build
+
+/-- `create_response_unstamped` / `create_response_unstamped_view`: same, query left empty. -/
+def createResponseUnstamped (reqId reqQf : Nat) (bodyFormat : Nat) (body : Bytes) : Message :=
+  (Builder.mk reqId false 0 (responseQueryFormat reqQf) bodyFormat [] body).build
+
+/-- Read up to `n` frames one after another from one stream with one reader (each successful read
+consumes exactly the frame it returned; the into-readers return what they leave in the reused buffer):
+the frames read and the unread rest. Stops at the first failure. -/
+def readSeq (reader : Bytes → WOut Bytes) : Nat → Bytes → List Bytes × Bytes
+  | 0, s => ([], s)
+  | n+1, s =>
+    match reader s with
+    | .ok f =>
+      let r := readSeq reader n (s.drop f.length)
+      (f :: r.1, r.2)
+    | _ => ([], s)
+
+/-! ### shapes of the emission routes, as read off the source by the extractor -/
+
+/-- One `write_all`/`extend_from_slice` of a message part; the flag says whether the source guards it
+with `if !part.is_empty()`. `unknown` = a statement the extractor did not recognise (emits nothing in
+the model, so that any theorem about the route fails: pessimistic). -/
+inductive Part where
+  | header
+  | query (guarded : Bool)
+  | body (guarded : Bool)
+  | unknown
+  deriving DecidableEq, Repr
+
+def Part.emit (m : Message) : Part → Bytes
+  | .header => m.header.encode
+  | .query g => if g && m.query.isEmpty then [] else m.query
+  | .body g => if g && m.body.isEmpty then [] else m.body
+  | .unknown => []
+
+/-- A route that performs the given writes in order. -/
+def emitParts (ps : List Part) (m : Message) : Bytes := (ps.map (Part.emit m)).flatten
+
+/-- header, then query, then body (each guarded or not): the only shape that is `to_vec` for every message. -/
+def partsOk : List Part → Bool
+  | [.header, .query _, .body _] => true
+  | _ => false
+
+/-! ### check sequences of the parsers, as read off the source by the extractor -/
+
+/-- The checks a parser performs, in source order. `unknown` = an unrecognised statement at a place where
+a check is expected (pessimistic). -/
+inductive Check where
+  | shortInput      -- `input.len() < HEADER_SIZE` → InvalidHeaderLength
+  | magic           -- `spec != REPE_SPEC` → InvalidSpec
+  | lengthSum       -- `expected != Some(length)` (or `length != expected`) → LengthMismatch
+  | bufferHolds     -- `buf.len() < expected` → BufferTooSmall
+  | exactLength     -- `buf.len() != expected` → LengthMismatch
+  | unknown
+  deriving DecidableEq, Repr
+
+/-- What `Header.decode` above performs, in order. -/
+def Header.decodeChecks : List Check := [.shortInput, .magic, .lengthSum]
+/-- What `Message.fromSlice` above performs, in order (after the header decode). -/
+def Message.fromSliceChecks : List Check := [.shortInput, .bufferHolds]
+/-- What `Message.fromSliceExact` adds. -/
+def Message.fromSliceExactChecks : List Check := [.exactLength]
+
+/-- Which parser an entry point that receives one whole transport message uses. -/
+inductive ParserKind where
+  | exact | lenient | unknown
+  deriving DecidableEq, Repr
+
 /-- Split a byte stream into whole frames by declared lengths (the peer's re-synchronisation). -/
 def parseFrames (form sform : SumForm) (mode : OvMode) : Nat → Bytes → List Message × Bytes
   | 0, bs => ([], bs)
